@@ -830,6 +830,37 @@ func (c *Ctx) specCall(x *SCall) *Val {
 	if name == "" {
 		c.refuse("unsupported call in specification: %s", x.String())
 	}
+	// a call of an inline (pure) Go method on a specification value: flag.Type()
+	if sel, ok := x.Fun.(*SSel); ok && pkgAlias != "" {
+		isVar := false
+		if _, b := c.lookupBound(pkgAlias); b {
+			isVar = true
+		}
+		for fr := c.Fr; fr != nil && !isVar; fr = fr.Parent {
+			if _, g := fr.Ghost[pkgAlias]; g || len(fr.ByName[pkgAlias]) > 0 {
+				isVar = true
+			}
+		}
+		if isVar {
+			recv := c.evalSpec(sel.X)
+			if recv.Typ != nil {
+				obj, _, _ := types.LookupFieldOrMethod(recv.Typ, true, c.Fr.Pkg.P.Types, name)
+				if fo, ok := obj.(*types.Func); ok {
+					if pi := c.E.pkgOf(fo); pi != nil {
+						if ct := pi.Spec.Contracts[funcKey(fo)]; ct != nil && ct.Inline {
+							fd := pi.FuncDecls[fo]
+							var args []*Val
+							for _, a := range x.Args {
+								args = append(args, c.evalSpec(a))
+							}
+							return c.inlineCall(pi, fo, fd.Type, fd.Recv, fd.Body, ct, recv, args, nil)
+						}
+					}
+				}
+			}
+			c.refuse("method call %s in specification: only inline (pure) methods are supported", x.String())
+		}
+	}
 	bt := types.Typ[types.Bool]
 	if pkgAlias == "" {
 		switch name {
